@@ -5,6 +5,9 @@
 //! every stored-tx write every truncation length (thorough) / boundary lengths (quick).
 //! After each: drop everything, reopen the directories, check the invariants, cancel all
 //! pending transactions and compare the spendable balance with the clean run's.
+//! In addition every scenario is run in a child process under an LD_PRELOAD interposer and
+//! killed before every mutating file syscall under the wallet directory (also after a half
+//! write), i.e. inside LMDB commits and file writes; the same checks follow.
 
 use crate::common::*;
 use crate::core::core::Committed;
@@ -439,6 +442,127 @@ fn seed_truncations(root: &str, problems: &mut Vec<(String, String)>) -> u64 {
 	n
 }
 
+// ---------------------------------------------------------------------------------------------
+// thorough: real process kills at every mutating file syscall under the wallet directory
+// (inside LMDB commits and stored-tx writes), via the LD_PRELOAD interposer of shim/crashpoint.c
+
+/// `gwv c06 child <scenario> <world dir>`: open the prepared world and run the operations under test
+fn child_main(args: &[String]) -> i32 {
+	let scen = &args[1];
+	let dir = &args[2];
+	let w = World::open(dir);
+	let prep = w.meta.extra["c06_prep"].clone();
+	let mut ids = vec![];
+	let r = catch(|| ops(&w, scen, &prep, &mut ids));
+	// a normal end: leave without running destructors that would write again
+	match r {
+		Ok(Ok(())) => 0,
+		Ok(Err(_)) => 3,
+		Err(_) => 4,
+	}
+}
+
+struct SysOut {
+	cases: u64,
+	killed: u64,
+	problems: Vec<(String, String, Value)>,
+	calls_per_scenario: BTreeMap<String, u64>,
+}
+
+fn run_child(so: &str, scen: &str, dir: &str, k: u64, short: bool, log: Option<&str>) -> Option<i32> {
+	let exe = std::env::current_exe().ok()?;
+	let mut c = std::process::Command::new(exe);
+	c.args(&["c06", "child", scen, dir])
+		.env("LD_PRELOAD", so)
+		.env("GWV_CP_DIR", WalletH::data_dir(dir, "A"))
+		.env("GWV_CP_K", k.to_string())
+		.env("GWV_CP_SHORT", if short { "1" } else { "0" })
+		.stdout(std::process::Stdio::null())
+		.stderr(std::process::Stdio::null());
+	match log {
+		Some(l) => {
+			c.env("GWV_CP_LOG", l);
+		}
+		None => {
+			c.env_remove("GWV_CP_LOG");
+		}
+	}
+	c.status().ok().and_then(|s| s.code())
+}
+
+fn syscall_sweep(root: &str, base: &Snapshot, references: &BTreeMap<String, u64>) -> Result<SysOut, String> {
+	let so = crate::props::c12::build_shim(root)?;
+	let mut out = SysOut { cases: 0, killed: 0, problems: vec![], calls_per_scenario: BTreeMap::new() };
+	// prepared snapshots + syscall counts per scenario
+	let mut jobs: Vec<(String, Snapshot, u64, bool)> = vec![];
+	for scen in SCENARIOS.iter() {
+		let dir = format!("{}/c06-sys-prep", root);
+		base.restore(&dir);
+		let mut w = World::open(&dir);
+		let prep = prepare(&w, scen);
+		w.meta.extra["c06_prep"] = prep;
+		w.close();
+		let snap = Snapshot::capture(&dir);
+		let log = format!("{}/c06-sys.log", root);
+		let _ = std::fs::remove_file(&log);
+		let code = run_child(&so, scen, &dir, 0, false, Some(&log));
+		if code != Some(0) {
+			return Err(format!("clean child run of scenario {} exited with {:?}", scen, code));
+		}
+		let lines: Vec<String> = std::fs::read_to_string(&log).unwrap_or_default().lines().map(|l| l.to_owned()).collect();
+		let n = lines.len() as u64;
+		out.calls_per_scenario.insert(scen.to_string(), n);
+		for k in 1..=n {
+			jobs.push((scen.to_string(), snap.clone(), k, false));
+			let is_write = lines[(k - 1) as usize].split(' ').nth(1).map(|x| x.contains("write")).unwrap_or(false);
+			if is_write {
+				jobs.push((scen.to_string(), snap.clone(), k, true));
+			}
+		}
+	}
+	let results = par_map(&jobs, workers(), |i, (scen, snap, k, short)| {
+		let dir = format!("{}/c06-sys-{}", root, i);
+		snap.restore(&dir);
+		let code = run_child(&so, scen, &dir, *k, *short, None);
+		let mut problems = vec![];
+		let killed = code == Some(77);
+		if !killed && code != Some(0) && code != Some(3) {
+			problems.push((format!("syscall-kill/child-exit/{}", scen), format!("child exited with {:?}", code)));
+		}
+		let dir_ids = context_ids(&dir);
+		let spendable = match catch(|| World::open(&dir)) {
+			Ok(w) => {
+				post_checks(&w, &dir_ids, scen, &mut problems);
+				let sp = recover_and_measure(&w, scen, &mut problems);
+				w.close();
+				sp
+			}
+			Err(p) => {
+				problems.push((format!("reopen-fails/{}", scen), format!("wallet does not load after a kill at file call #{}: {}", k, p)));
+				None
+			}
+		};
+		let _ = std::fs::remove_dir_all(&dir);
+		(killed, problems, spendable)
+	});
+	for ((scen, _, k, short), (killed, problems, spendable)) in jobs.iter().zip(results.into_iter()) {
+		out.cases += 1;
+		if killed {
+			out.killed += 1;
+		}
+		let mut ps = problems;
+		if let (Some(sp), Some(r)) = (spendable, references.get(scen)) {
+			if sp != *r {
+				ps.push((format!("balance-not-restored/{}", scen), format!("after a kill at file call #{} and recovery the spendable balance is {} instead of {}", k, sp, r)));
+			}
+		}
+		for (key, what) in ps {
+			out.problems.push((format!("syscall-kill/{}", key), format!("{} — scenario {}, process killed before file call #{}{}", what, scen, k, if *short { " (after a half write)" } else { "" }), json!({"scenario": scen, "syscall": k, "short": short})));
+		}
+	}
+	Ok(out)
+}
+
 pub fn replay(payload: &Value) -> i32 {
 	std::env::set_var("GWV_SHOW_PANICS", "1");
 	let root = scratch_root();
@@ -452,7 +576,10 @@ pub fn replay(payload: &Value) -> i32 {
 	if r.problems.is_empty() { 0 } else { 1 }
 }
 
-pub fn run(_args: &[String]) -> i32 {
+pub fn run(args: &[String]) -> i32 {
+	if args.get(0).map(|s| s.as_str()) == Some("child") {
+		return child_main(args);
+	}
 	let mut rep = Report::new("C06", "fault_enumeration");
 	let thorough = tier() == Tier::Thorough;
 	let root = scratch_root();
@@ -534,12 +661,31 @@ pub fn run(_args: &[String]) -> i32 {
 			});
 		}
 	}
+	// thorough: process kills at every mutating file syscall
+	let mut sys_cases = 0u64;
+	{
+		let refs: BTreeMap<String, u64> = scens.iter().zip(clean.iter()).map(|(s, c)| (s.to_string(), c.spendable.unwrap_or(0))).collect();
+		match syscall_sweep(&root, &base, &refs) {
+			Ok(o) => {
+				sys_cases = o.cases;
+				fired += o.killed;
+				rep.cov("syscall_kill_points", json!({"cases": o.cases, "killed": o.killed, "file_calls_per_scenario": o.calls_per_scenario}));
+				for (k, w, payload) in o.problems {
+					rep.add_finding(Finding { key: format!("C06/{}", k), what: w, replay: payload });
+				}
+				if o.killed < 50 {
+					return rep.finish(Some(format!("syscall-level sweep killed only {} children", o.killed)));
+				}
+			}
+			Err(e) => return rep.finish(Some(format!("syscall-level sweep: {}", e))),
+		}
+	}
 	let mut seed_problems = vec![];
 	let n_seed = seed_truncations(&root, &mut seed_problems);
 	for (k, w) in seed_problems {
 		rep.add_finding(Finding { key: format!("C06/{}", k), what: w, replay: json!({"scenario": "seed-truncation"}) });
 	}
-	let n = jobs.len() as u64 + scens.len() as u64 + n_seed;
+	let n = jobs.len() as u64 + scens.len() as u64 + n_seed + sys_cases;
 	rep.cov("evaluations", json!(n));
 	rep.cov("distinct_nontrivial", json!(fired));
 	rep.cov("rule", json!("one case = (scenario, index of persistent effect, fault kind [, truncation length]); distinct by construction; non-trivial = the fault actually fired (the run did not complete normally)"));
